@@ -268,6 +268,33 @@ func init() {
 			return v.havocResults(st, call, "buf")
 		})
 	}
+	// sort.Slice(x, less): the elements are permuted in place (trusted: nothing is said about
+	// the resulting order - that would need less to be a strict weak order). new[k] = old[perm(k)]
+	// with perm an unknown function into [0, len): any per-element fact carries over.
+	reg("sort.Slice", false, func(v *FnV, st *State, call *ast.CallExpr, recv *Value, args []Value) []Value {
+		slt, ok := v.typeOf(call.Args[0]).Underlying().(*types.Slice)
+		if !ok || len(v.frames) == 0 {
+			st.havocAllHeaps()
+			return nil
+		}
+		sl := v.expr(st, call.Args[0])
+		elem := v.substT(slt.Elem())
+		name, h := v.elemHeap(st, elem)
+		es := v.c.sortOf(elem)
+		ref := sx("sref", sl.S)
+		na := v.c.freshName("sorted")
+		pf := v.c.freshName("perm")
+		st.declare(na, "(Array Int "+es+")")
+		st.items = append(st.items, Item{Decl: fmt.Sprintf("(declare-fun %s (Int) Int)", pf)})
+		old := sSelect(h, ref)
+		lo, hi := sx("sloff", sl.S), sAdd(sx("sloff", sl.S), sx("sllen", sl.S))
+		st.axiom(fmt.Sprintf("(forall ((k!c Int)) (! (ite (and (<= %s k!c) (< k!c %s)) (and (<= %s (%s k!c)) (< (%s k!c) %s) (= (select %s k!c) (select %s (%s k!c)))) (= (select %s k!c) (select %s k!c))) :pattern ((select %s k!c))))",
+			lo, hi, lo, pf, pf, hi, na, old, pf, na, old, na))
+		v.writeCheck(st, ref, "sort.Slice sorts in place")
+		st.setHeap(name, sStore(h, ref, na))
+		v.c.trusted["sort.Slice permutes the slice in place (resulting order not modelled)"] = true
+		return nil
+	})
 	reg("strings.LastIndex", true, func(v *FnV, st *State, call *ast.CallExpr, recv *Value, args []Value) []Value {
 		s, t := args[0].S, args[1].S
 		if lit, ok := v.litContent(t); ok && len(lit) == 1 {
